@@ -9,6 +9,9 @@ require (
 	github.com/jrhy/mast v0.0.0
 )
 
-require github.com/minio/blake2b-simd v0.0.0-20160723061019-3f5f724cb5b1 // indirect
+require (
+	github.com/jmespath/go-jmespath v0.4.0 // indirect
+	github.com/minio/blake2b-simd v0.0.0-20160723061019-3f5f724cb5b1 // indirect
+)
 
 replace github.com/jrhy/mast => /repo
